@@ -12,12 +12,9 @@ import (
 // C01 — object syntax round trip.
 
 func init() {
-	props["C01"] = &Prop{
-		Rule: "object trees from a structured generator (all byte values in names/strings, boundary ints, random finite float bits, refs, nil arrays, nil dict entries, nesting up to the scanner limit) x 8 option sets; token strings exhaustively over a 20-byte delimiter alphabet up to a tier-dependent length plus random soups and mutations, also placed across the 1024-byte buffer edge. A case is non-trivial when it has at least one composite, string or name; distinct by its wire form / byte string.",
-		Run:    runC01,
-		Replay: replayC01,
-		Canon:  canonReals,
-	}
+	addRun("C01", "object trees from a structured generator (all byte values in names/strings, boundary ints, random finite float bits, refs, nil arrays, nil dict entries, nesting up to the scanner limit) x 8 option sets; token strings exhaustively over a 20-byte delimiter alphabet up to a tier-dependent length plus random soups and mutations, also placed across the 1024-byte buffer edge. A case is non-trivial when it has at least one composite, string or name; distinct by its wire form / byte string.", runC01)
+	addReplay("C01", "roundtrip", replayC01RoundTrip)
+	setCanon("C01", canonReals)
 }
 
 var c01Opts = []struct {
@@ -284,18 +281,13 @@ func truncate(s string) string {
 	return s
 }
 
-func replayC01(oracle, input string) (bool, string) {
-	switch oracle {
-	case "roundtrip":
-		parts := strings.SplitN(input, " ", 2)
-		objs, err := unwireSeq(parts[1])
-		if err != nil {
-			return true, "bad replay input: " + err.Error()
-		}
-		ok, d := oracleRoundTrip(parts[0], objs)
-		return ok, d
+func replayC01RoundTrip(input string) (bool, string) {
+	parts := strings.SplitN(input, " ", 2)
+	objs, err := unwireSeq(parts[1])
+	if err != nil {
+		return true, "bad replay input: " + err.Error()
 	}
-	return true, "unknown oracle " + oracle
+	return oracleRoundTrip(parts[0], objs)
 }
 
 // ---- run ----
